@@ -163,6 +163,13 @@ static std::vector<Scenario> make_scenarios(bool thorough) {
                      }},
                   Op{"finddelay", [] { return (uint64_t)finddelay(rletter(40, 53), rletter(40, 54)); }}}}, 1);
     }
+    // primes helpers with arguments beyond the built-in table (isprime of numbers > 251^2 generates primes on the fly)
+    free_fn("H2.primes-large.t3",
+            {{Op{"isprime(65537)", [] { return (uint64_t)isprime(65537) ^ H(factor(67591)); }}},
+             {Op{"nextprime(65530)", [] { return (uint64_t)nextprime(65530) ^ (uint64_t)isprime(4294967291u); }}},
+             {Op{"primes(70000)", [] { return H(primes(70000)) ^ H(factor(600851475u)); }}}}, 2);
+    free_fn("H2.fft-large-prime-factor.t2",
+            {{Op{"fft(514=2*257)", [] { return H(fft(cletter(514, 55))); }}}, {Op{"rfft(263)", [] { return H(rfft(rletter(263, 56))); }}}}, 2);
     // ---- H3: random state is per thread
     free_fn("H3.rng.t2",
             {{Op{"rng(1)", [] {
